@@ -29,12 +29,16 @@ REQUIRED = ["Sqfs.C04.readNumber_exact_or_error", "Sqfs.C04.number_roundtrip", "
             "Sqfs.C04.fixpoint_tree_level", "Sqfs.C04.fixpoint_idempotent", "Sqfs.C04.decode_header_spec",
             "Sqfs.C04.read_header_plain_block", "Sqfs.C04.read_header_after_records", "Sqfs.C04.gnu_long_records",
             "Sqfs.C04.gnu_long_name_member", "Sqfs.C04.pax_record_spec", "Sqfs.C04.retarget_spec",
-            "Sqfs.C04.pax_record_roundtrip", "Sqfs.C04.pax_payload_roundtrip"]
+            "Sqfs.C04.pax_record_roundtrip", "Sqfs.C04.pax_payload_roundtrip", "Sqfs.C04.pax_sparse_map_replaces",
+            "Sqfs.C04.hardlink_filter_spec", "Sqfs.C04.cut_record_is_error", "Sqfs.C04.pax_number_exact_or_error",
+            "Sqfs.C04.pax_sparse_map_spec", "Sqfs.C04.subdir_selection_spec", "Sqfs.C04.fixpoint_sqfs2tar_options",
+            "Sqfs.C04.libarchive_key_roundtrip", "Sqfs.C04.libarchive_xattr_roundtrip"]
 EXCLUDE = ("lib/tar/src/write_header.c", "lib/tar/src/read_header.c")     # #included by the harness (static helpers)
 U64 = 1 << 64
 
 KEY_D26 = "D26:read_binary-silent-wrap"
 KEY_XKEY = "xattr-key:equals-sign-not-escaped"
+KEY_OLD256 = "old-sparse:base256-entry-ends-map"
 MAX_PER_CLASS = 5
 _class_count = {}
 
@@ -73,8 +77,26 @@ def run_impl(ctx, harness, lines, timeout=3600):
     return out, None
 
 
+def sh_t(cmd, **kw):
+    """vlib.sh for runs of the real tools: a wall-clock timeout is a *result* (exit status -9, which every caller reports as an abort
+    with the input as replay), not an exception of the check"""
+    import subprocess, types
+    try:
+        return vlib.sh(cmd, **kw)
+    except subprocess.TimeoutExpired:
+        text = kw.get("text", not isinstance(kw.get("input"), (bytes, bytearray)))
+        msg = "wall-clock timeout after %s s" % kw.get("timeout")
+        return types.SimpleNamespace(returncode=-9, stdout="" if text else b"", stderr=msg if text else msg.encode())
+
+
 def run_model(ctx, lines):
-    return ctx.driver(["c04"], "\n".join(lines) + "\n", timeout=3600)
+    """one answer line per script line, or the check infrastructure has failed (never a silent pass through a short zip)"""
+    if not lines:
+        return []
+    out = ctx.driver(["c04"], "\n".join(lines) + "\n", timeout=3600)
+    if len(out) != len(lines):
+        raise vlib.CheckFailure("model driver answered %d lines to a script of %d lines (first op: %s)" % (len(out), len(lines), lines[0][:80]))
+    return out
 
 
 # ------------------------------------------------------------------ numbers
@@ -297,18 +319,23 @@ KEY_D22 = "D22:sparse-data-exceeds-record"
 
 
 def classify_reader_batch(ctx, op, items, stats):
-    """items = [(line, impl_out)] where impl differs from the repaired model: is it an unrepaired reader?  (r, k, d) = (D22 sparse bound
-    repaired, xattrs appended, SCHILY keys un-escaped).  Reports the matching known findings; returns one bool per item (False: no
-    variant of the unrepaired code explains the output)."""
-    variants = [("0", "0", "1"), ("1", "0", "0"), ("0", "0", "0")]
+    """items = [(line, impl_out)] where impl differs from the repaired model: is it an unrepaired reader?  (r, k, d, o) = (D22 sparse bound
+    repaired, xattrs appended, SCHILY keys un-escaped, base-256 entries of an old GNU sparse map read).  Reports the matching known
+    findings; returns one bool per item (False: no variant of the unrepaired code explains the output)."""
+    variants = [("0", "0", "1", "1"), ("1", "0", "0", "1"), ("0", "0", "0", "1"), ("1", "0", "1", "0")]
     if not items:
         return []
-    outs = run_model(ctx, ["%sx %s %s %s %s" % (op, r, k, d, line.split(" ", 1)[1]) for line, _ in items for r, k, d in variants])
+    outs = run_model(ctx, ["%sx %s %s %s %s %s" % (op, r, k, d, o, line.rsplit(" ", 1)[1]) for line, _ in items for r, k, d, o in variants])
     res = []
     for n, (line, impl_out) in enumerate(items):
         hit = False
-        for m, (r, k, d) in enumerate(variants):
+        for m, (r, k, d, o) in enumerate(variants):
             if outs[n * len(variants) + m] == impl_out:
+                if o == "0":
+                    stats["known_old256_seen"] = stats.get("known_old256_seen", 0) + 1
+                    ctx.violation(KEY_OLD256, "read_header takes an old GNU sparse map entry whose offset or size is a base-256 number (8 GiB and more, as "
+                                  "GNU tar writes them) for the end of the list: the rest of the map is dropped, the file is stored with zeros instead "
+                                  "of the data of the dropped regions (%s)" % impl_out[-160:], {"unit": [line]})
                 if d == "0":
                     stats["known_xkey_seen"] = stats.get("known_xkey_seen", 0) + 1
                     ctx.violation(KEY_XKEY, "read_header takes a SCHILY.xattr key verbatim: \"%%3D\"/\"%%25\" as written by GNU tar (and by the repaired "
@@ -772,20 +799,22 @@ def spec_expand(m, real, data):
 def sparse_member(rng, name, m, real, data, dialect):
     """one sparse file in the chosen dialect -> bytes"""
     if dialect == "old":
+        def num(v):                                           # GNU tar: octal with terminator below 8^11 (8 GiB), base-256 from there on
+            return encnum(v, 12, "b256") if v >= 8 ** 11 else encnum(v, 12, "term")
         tail = bytearray(167)                                 # gnu tail: atime(12) ctime(12) offset(12) deprecated(4) unused(1) sparse[4](96) isext(1) realsize(12)
         ents = m[:4]
         for i, (o, c) in enumerate(ents):
-            tail[41 + 24 * i:41 + 24 * i + 12] = encnum(o, 12, "term")
-            tail[41 + 24 * i + 12:41 + 24 * i + 24] = encnum(c, 12, "term")
+            tail[41 + 24 * i:41 + 24 * i + 12] = num(o)
+            tail[41 + 24 * i + 12:41 + 24 * i + 24] = num(c)
         rest = m[4:]
         tail[137] = 1 if rest else 0
-        tail[138:150] = encnum(real, 12, "term")
+        tail[138:150] = num(real)
         out = mk_header(name=name, size=len(data), typeflag=b"S", dialect="gnu", tail=bytes(tail), mtime=1542905892)
         while rest:
             blk = bytearray(512)
             for i, (o, c) in enumerate(rest[:21]):
-                blk[24 * i:24 * i + 12] = encnum(o, 12, "term")
-                blk[24 * i + 12:24 * i + 24] = encnum(c, 12, "term")
+                blk[24 * i:24 * i + 12] = num(o)
+                blk[24 * i + 12:24 * i + 24] = num(c)
             rest = rest[21:]
             blk[504] = 1 if rest else 0
             out += bytes(blk)
@@ -799,6 +828,19 @@ def sparse_member(rng, name, m, real, data, dialect):
         recs = [pax_record(b"GNU.sparse.size", str(real).encode()), pax_record(b"GNU.sparse.numblocks", str(len(m)).encode()),
                 pax_record(b"GNU.sparse.name", name), pax_record(b"GNU.sparse.map", ",".join("%d,%d" % e for e in m).encode())]
         return pax_member(recs) + mk_header(name=b"GNUSparseFile.0/x", size=len(data), mtime=1542905892) + pad512(data)
+    if dialect == "mix":
+        # GNU.sparse.numbytes records (0.0) and a GNU.sparse.map record (0.1) in one PAX header: the map replaces the list built so far
+        # and a later numbytes record starts a new one (pax_header.c:350-353, fix 56b164f) — whatever comes last wins
+        k = rng.randint(0, len(m))
+        recs = [pax_record(b"GNU.sparse.size", str(real).encode()), pax_record(b"GNU.sparse.numblocks", str(len(m)).encode())]
+        for o, c in m[:k]:
+            recs += [pax_record(b"GNU.sparse.offset", str(o).encode()), pax_record(b"GNU.sparse.numbytes", str(c).encode())]
+        recs.append(pax_record(b"GNU.sparse.map", ",".join("%d,%d" % e for e in (m if rng.random() < 0.5 else m[:max(1, k)])).encode()))
+        for o, c in m[k:] if rng.random() < 0.8 else []:
+            recs += [pax_record(b"GNU.sparse.offset", str(o).encode()), pax_record(b"GNU.sparse.numbytes", str(c).encode())]
+        if rng.random() < 0.3:
+            recs.append(pax_record(b"GNU.sparse.map", ",".join("%d,%d" % e for e in m).encode()))
+        return pax_member(recs) + mk_header(name=name, size=len(data), mtime=1542905892) + pad512(data)
     # 1.0: the map is a decimal text block in front of the data, padded to 512
     txt = ("%d\n" % len(m) + "".join("%d\n%d\n" % e for e in m)).encode()
     blob = pad512(txt) + data
@@ -948,11 +990,26 @@ def gen_reader_member(rng):
         ])
         h = mk_header(name=b"pax/x", size=len(body), typeflag=b"x", dialect="ustar") + pad512(body)
         return h + mk_header(name=b"member", size=3, dialect="ustar") + pad512(b"abc"), None, "pax-malformed"
+    if r < 0.97 and rng.random() < 0.12:                      # old GNU sparse map of a file larger than 8 GiB: header decode only
+        n = rng.choice([2, 3, 4, 5, 8, 25, 30])
+        k = rng.randrange(n)                                  # entries from index k on lie beyond 8 GiB
+        off, m = 0, []
+        for i in range(n):
+            off += rng.choice([0, 512, 4096, 1 << 20]) + ((8 ** 11 + rng.choice([0, 0, 4096, 1 << 36])) if i == k else 0)
+            c = rng.choice([1, 512, 612, 1000])
+            m.append((off, c)); off += c
+        real = off + rng.choice([0, 100])
+        data = bytes(rng.randrange(1, 256) for _ in range(sum(c for _, c in m)))
+        name = gen_name(rng, 7)
+        exp = dict(name=name, size=real, tf=b"0", sparse=m, data=None, uid=0, gid=0, mtime=1542905892, link=b"", perm=0o644, maj=0, min=0)
+        return sparse_member(rng, name, m, real, data, "old"), exp, "sparse-old-big"
     if r < 0.97:                                              # sparse files
         wf = rng.random() < 0.75
         m, real, data = gen_sparse_map(rng, wf)
-        dialect = rng.choice(["old", "0.0", "0.1", "1.0"])
+        dialect = rng.choice(["old", "0.0", "0.1", "1.0", "mix"])
         name = gen_name(rng, rng.choice([5, 60]))
+        if dialect == "mix":                                  # no independent expectation: model = code decides (and ASan: the list that was freed)
+            return sparse_member(rng, name, m, real, data, dialect), None, "sparse-mix-0.0-0.1"
         exp = dict(name=name, size=real, tf=b"0", sparse=m, data=spec_expand(m, real, data), uid=0, gid=0, mtime=1542905892, link=b"", perm=0o644, maj=0, min=0) if wf else None
         return sparse_member(rng, name, m, real, data, dialect), exp, "sparse-" + dialect + ("" if wf else "-malformed")
     # header level damage
@@ -964,6 +1021,24 @@ def gen_reader_member(rng):
     if k == "zero":
         return b"\0" * 512, None, "single-zero-block"
     return mk_header(name=b"trunc", size=1000) + b"abc", None, "truncated-data"
+
+
+def dangling_ext_prefix(b):
+    """True when `b` (a proper prefix of one generated member) consists of complete extension records only (header + payload +
+    padding of 'x' / 'g' / 'L' / 'K'), i.e. the cut fell on the record boundary in front of a later header of the member"""
+    pos = 0
+    while pos + 512 <= len(b):
+        h = b[pos:pos + 512]
+        if h[156:157] not in (b"x", b"g", b"L", b"K"):
+            return False
+        try:
+            size = int(h[124:136].rstrip(b" \0") or b"0", 8)
+        except ValueError:
+            return False
+        pos += 512 + (size + 511) // 512 * 512
+        if pos == len(b):
+            return True
+    return False
 
 
 def monitor_decoded(exp, d):
@@ -1022,15 +1097,36 @@ def unit_reader(ctx, harness, stats):
     partial = [(b"", "eof"), (b"\0" * 100, "eof"), (b"\0" * 511, "eof"), (b"\0" * 512 + b"\0" * 10, "eof"), (b"\0" * 1024 + b"x", "eof"),
                (b"a" * 100, "err"), (b"x", "err"), (hdr0[:511], "err"), (hdr0[:300], "err"), (b"\0" * 511 + b"\x01", "err"),
                (b"\0" * 512 + b"xyz", "err"), (b"\0" * 512 + hdr0[:257], "err"), (bytes(rng.randrange(1, 256) for _ in range(rng.randint(1, 511))), "err")]
+    # streams cut inside an extension record or its padding, inside a 'g' record, inside the extension records of an old GNU sparse
+    # header: since /repo 1ef571c `sqfs_istream_skip` reports the early end, so every one of these is an error (never `eof`, never `ok`)
+    nm = gen_name(rng, rng.choice([100, 101, 300, 511, 512, 513, 1000]))
+    for tfx in (b"L", b"K"):
+        rec = gnu_long(tfx, nm)                              # header + payload + padding
+        plen = len(nm) + 1
+        padl = (-plen) % 512
+        cuts = {512 + rng.randint(1, plen - 1)}                                                  # inside the payload
+        if padl:
+            cuts.add(512 + plen)                                                                 # all padding missing
+        if padl > 1:
+            cuts |= {len(rec) - 1, len(rec) - rng.randint(1, padl - 1), 512 + plen + 1}          # inside the padding
+        partial += [(rec[:c], "err") for c in sorted(cuts)]
+    xrec = pax_member([pax_record(b"path", nm), pax_record(b"uid", b"1000")])
+    partial += [(xrec[:len(xrec) - 1], "err"), (xrec[:len(xrec) - rng.randint(1, 200)], "err"), (xrec[:512 + rng.randint(1, 50)], "err")]
+    grec = pax_member([pax_record(b"comment", b"c" * rng.choice([10, 480, 600]))], name=b"pax_global_header", typeflag=b"g")
+    partial += [(grec[:len(grec) - 1], "err"), (grec[:512 + rng.randint(1, 20)], "err"), (grec[:512], "err"),
+                (grec + hdr0 + b"\0" * 1024, "ok"), (grec, "eof")]
     plines = ["dec " + tok(b) for b, _ in partial]
     pimpl, pcrash = run_impl(ctx, harness, plines)
     pmodel = run_model(ctx, plines)
     for (b, want), l, a, m in zip(partial, plines, pimpl if not pcrash else ["crash"] * len(plines), pmodel):
         stats["nontrivial"].add(("dec", vlib.sha(l)[:16]))
-        if a != want:
+        if a.split(" ")[0] != want:
             stats["disagreements_checked"] += 1
-            report(ctx, "dec-short", "dec:short-record:%s-instead-of-%s" % (a[:8], want), "read_header on a stream ending in a %d-byte record (%s) answers %s, "
-                   "must be %s: a damaged/truncated archive is taken for a clean end" % (len(b) % 512, "all zero" if not any(b[-(len(b) % 512 or 512):]) else "not zero", a[:60], want), {"unit": [l]})
+            kind = ("a stream of %d bytes that ends inside an extension record ('%s', size field %s) or its padding" % (
+                len(b), b[156:157].decode("latin1"), b[124:135].decode("latin1").lstrip("0") or "0")) if len(b) >= 512 and b[156:157] in (b"L", b"K", b"x", b"g") else (
+                "a stream ending in a %d-byte record (%s)" % (len(b) % 512, "all zero" if not any(b[-(len(b) % 512 or 512):]) else "not zero"))
+            report(ctx, "dec-short", "dec:short-record:%s-instead-of-%s" % (a[:8], want), "read_header on %s answers %s, must be %s%s" % (
+                kind, a[:60], want, ": a damaged/truncated archive is taken for a clean end" if want == "err" else ""), {"unit": [l]})
         elif a != m:
             stats["disagreements_checked"] += 1
             report(ctx, "dec-short-corr", "dec-short:" + vlib.sha(l)[:12], "read_header on a short record: code %s model %s" % (a[:60], m[:60]), {"unit": [l]}, found_input=False)
@@ -1069,7 +1165,10 @@ def unit_reader(ctx, harness, stats):
     archives = []
     for _ in range(400 if ctx.quick() else 6000):
         k = rng.randint(1, 5)
-        ms = [gen_reader_member(rng) for _ in range(k)]
+        # (the models expand a file into a list: nothing of 8 GiB through `iter`)
+        ms = [m for m in (gen_reader_member(rng) for _ in range(k)) if m[2] != "sparse-old-big"]
+        if not ms:
+            continue
         if rng.random() < 0.7:
             ms = [m for m in ms if m[1] is not None or m[2].startswith("sparse")] or ms
         body = b"".join(m[0] for m in ms)
@@ -1078,13 +1177,51 @@ def unit_reader(ctx, harness, stats):
                                     (b"\0" * 100, 1), (b"\0" * 512 + b"\0" * 17, 1), (b"\0" * 1024 + b"x", 1),
                                     (b"garbage, not a header", -1), (mk_header(name=b"cut")[:511], -1), (b"\0" * 512 + b"x", -1),
                                     (b"\0" * 511 + b"\x01", -1), (mk_header(name=b"cut", size=5)[:rng.randint(1, 500)], -1)])
-        archives.append((body + end, ms, want_end))
+        cut = None
+        if rng.random() < 0.3:
+            # the archive ends *inside* a member (header, extension record, data, padding) and has no end marker: never a clean end.
+            # Since /repo 1ef571c the skip of data/padding reports the early end too, so all of these are errors.
+            j = rng.randrange(len(ms))
+            start = sum(len(m[0]) for m in ms[:j])
+            mlen = len(ms[j][0])
+            where = rng.choice(["head", "tail", "tail", "tail1", "blocks", "any"])
+            if where == "head":
+                p = rng.randint(1, 511)
+            elif where == "tail":
+                p = mlen - rng.randint(1, 511)                 # inside the padding, or the last bytes of the data
+            elif where == "tail1":
+                p = mlen - 1
+            elif where == "blocks":
+                p = 512 * rng.randint(1, max(1, mlen // 512 - 1)) + rng.choice([0, 0, 1, 511])   # on a record boundary inside the member
+            else:
+                p = rng.randint(1, mlen - 1)
+            p = min(max(p, 1), mlen - 1)
+            if not any(ms[j][0][:p]):
+                # (the "member" is a zero block of the header-damage class: what is left of it is a partial all-zero record, a clean end)
+                where = "inside-zero-block"
+                want_cut_end = 0
+            elif dangling_ext_prefix(ms[j][0][:p]):
+                # only complete extension records ('x'/'g'/'L'/'K') of the member are left and the header they belong to is missing:
+                # read_header takes the end of input at a record boundary for the end of the archive whatever it has accumulated
+                # (an archive needs no end marker) — noted in docs/design/C04.md, expected here as the code's documented behaviour
+                where = "after-ext-records"
+                want_cut_end = 0                              # no expectation of its own: model = code decides
+            else:
+                want_cut_end = -1
+            cut = (j, p, where)
+            body, end, want_end = body[:start + p], b"", want_cut_end
+            ms = ms[:j + 1]
+        archives.append((body + end, ms, want_end, cut))
     # quick tier: the seed archives holding megabyte-sized sparse files (34 KB each, 2 MiB expanded; ~50 s of model time each) go
     # through the iterator in the thorough tier only; their headers are still decoded above, and generated sparse members of every
     # dialect plus sparse-files/gnu-small.tar keep the sparse walk covered
     iter_seeds = [s for s in seed_streams if not ctx.quick() or len(s) < 20000]
     stats["iter_seed_archives"] = len(iter_seeds)
-    lines = ["iter " + tok(a) for a, _, _ in archives] + ["iter " + tok(s) for s in iter_seeds]
+    # the size of the caller's read requests is part of the stream's contract (tar2sqfs reads in blocks, sqfs_istream_read callers
+    # in anything): a third of the archives go through `iterw` with another request size
+    wants = [rng.choice([512, 512, 1, 7, 100, 511, 513, 4096, 4097, 65536]) if rng.random() < 0.35 else 512 for _ in archives]
+    stats["iter_request_sizes"] = {str(w): wants.count(w) for w in sorted(set(wants))}
+    lines = [("iter " if w == 512 else "iterw %d " % w) + tok(a) for (a, _, _, _), w in zip(archives, wants)] + ["iter " + tok(s) for s in iter_seeds]
     impl, crash = run_impl(ctx, harness, lines)
     if crash:
         k, rc, err = crash
@@ -1098,7 +1235,7 @@ def unit_reader(ctx, harness, stats):
         fut_main = ex.submit(run_model, ctx, lines[:na])
         futs = [ex.submit(run_model, ctx, [l]) for l in lines[na:]]
         model = fut_main.result() + [f.result()[0] for f in futs]
-    nsparse = 0
+    nsparse, ncut, cut_hist = 0, 0, {}
     expl = dict(zip([i for i in range(len(lines)) if impl[i] != model[i]],
                     classify_reader_batch(ctx, "iter", [(lines[i], impl[i]) for i in range(len(lines)) if impl[i] != model[i]], stats)))
     for i, l in enumerate(lines):
@@ -1106,7 +1243,15 @@ def unit_reader(ctx, harness, stats):
         stats["nontrivial"].add(("iter", vlib.sha(l)[:16]))
         # specification on the implementation: every well-formed member (all members well-formed) is delivered with its data expanded
         bad = []
-        if ms and all(m[1] is not None for m in ms):
+        cut = archives[i][3] if i < len(archives) else None
+        if cut is not None:
+            ncut += 1
+            cut_hist[cut[2]] = cut_hist.get(cut[2], 0) + 1
+            ents, end = parse_iter(impl[i])
+            if archives[i][2] and end != "end=%d" % archives[i][2]:
+                bad.append("end: %s for an archive cut %d bytes into its last member (%s, %d bytes, no end marker): a truncated archive is taken "
+                           "for a complete one" % (end, cut[1], ms[-1][2], len(ms[-1][0])))
+        elif ms and all(m[1] is not None for m in ms):
             ents, end = parse_iter(impl[i])
             want = [m[1] for m in ms if m[1]["tf"] in (b"0", b"\0", b"1", b"2", b"3", b"4", b"5", b"6")]
             if len(ents) != len(want):
@@ -1137,6 +1282,9 @@ def unit_reader(ctx, harness, stats):
     stats["evaluations"] += 3 * len(lines)
     stats["iter_archives"] = len(lines)
     stats["iter_sparse_files_checked_against_spec"] = nsparse
+    stats["iter_archives_cut_inside_a_member"] = {"total": ncut, "where": cut_hist}
+    if ncut == 0 or nsparse == 0:
+        raise vlib.CheckFailure("iterator generator produced %d cut archives and %d sparse files checked against the specification" % (ncut, nsparse))
 
 
 # ------------------------------------------------------------------ conversion model (process_tarball + fstree_add_generic) vs the real tar2sqfs
@@ -1179,11 +1327,11 @@ def gen_conv_archive(rng, rb=b""):
 
     n = rng.randint(1, 9)
     out = b""
-    used = []
+    used, nondirs = [], []
     for _ in range(n):
         depth = rng.choice([0, 1, 1, 2, 2, 3])
         path = b"/".join(rng.choice(comps) for _ in range(depth)) if depth else rng.choice([b"./", b"/", b".", b"r", b"r/", b"a/b/", b"./r"])
-        if used and rng.random() < 0.2:
+        if used and rng.random() < 0.08:
             path = rng.choice(used)                           # the same name again (EEXIST unless an implicit directory is made explicit)
             depth = 0
         used.append(path)
@@ -1192,7 +1340,10 @@ def gen_conv_archive(rng, rb=b""):
             used[-1] = path
         elif depth and rng.random() < 0.3:
             path = rng.choice([b"./", b"/", b"r/", b"a/b/", b".//"]) + path
-        kind = rng.choice(["dir", "dir", "file", "file", "slink", "slink", "fifo", "chr", "blk"])
+        kind = rng.choice(["dir", "dir", "file", "file", "slink", "slink", "fifo", "chr", "blk", "hard", "hard"] if nondirs else
+                          ["dir", "dir", "file", "file", "slink", "slink", "fifo", "chr", "blk"])
+        if kind not in ("dir", "hard") and depth:
+            nondirs.append(path)
         uid, gid = rng.choice([0, 1, 1000, 65534, (1 << 32) - 1]), rng.choice([0, 5, 1000])
         mtime = rng.choice([0, 1, 1542905892, (1 << 31), (1 << 32) - 1, 1 << 32, (1 << 33) + 7, -1, -(1 << 31)])
         style = "b256" if mtime < 0 or mtime >= 1 << 33 else rng.choice(["term", "nul", "b256"])
@@ -1208,6 +1359,17 @@ def gen_conv_archive(rng, rb=b""):
             out += hdr(name=path, mode=0o777, uid=uid, gid=gid, mtime=mtime, typeflag=b"2", linkname=rng.choice(LINK_POOL), dialect="gnu", style=style)
         elif kind == "fifo":
             out += hdr(name=path, mode=mode, uid=uid, gid=gid, mtime=mtime, typeflag=b"6", dialect="ustar", style=style)
+        elif kind == "hard":
+            # hard link record (typeflag '1'): the `hardLink` branches of convStep / processEntry (retarget below --root-becomes even
+            # with -S) / addGeneric (canonical target, S_IFLNK|0777 node); target: an earlier or later member, a name that does not
+            # exist, a directory, itself, something outside the new root, a non-canonical spelling
+            if nondirs and rng.random() < 0.8:
+                tgt = rng.choice(nondirs)                     # an earlier member that is not a directory, under its archive name
+                if rng.random() < 0.3:
+                    tgt = rng.choice([b"./", b"/", b""]) + tgt.replace(b"/", b"//", 1)
+            else:
+                tgt = rng.choice([u for u in used[:-1] if u] + [b"a", b"r/x", b"nowhere", b"./" + path, b"a//b/", b"../up", b"/r/a"])
+            out += hdr(name=path, mode=mode, uid=uid, gid=gid, mtime=mtime, typeflag=b"1", linkname=tgt[:99], dialect=rng.choice(["ustar", "gnu"]), style=style)
         else:
             out += hdr(name=path, mode=mode, uid=uid, gid=gid, mtime=mtime, typeflag=b"3" if kind == "chr" else b"4", dialect="ustar", style=style,
                              maj=rng.choice([0, 1, 8, 255, 4095]), minr=rng.choice([0, 1, 255, 256, (1 << 20) - 1]))
@@ -1274,10 +1436,32 @@ def run_conv_case(ctx, tools, d, i, case):
 
 
 def norm_conv_model(line):
+    """the model's tree as sorted describe-like lines.  The conversion model stops in front of `fstree_post_process` (hard-link
+    resolution is C07's): a `hardlink <path> <target>` node is resolved here the way the image shows it — the path carries the
+    attributes of the inode the chain of targets ends in; a missing target, a directory or a loop makes tar2sqfs fail."""
     if not line.startswith("ok"):
         return "fail"
     body = line[3:].strip()
-    return sorted(x for x in body.split(";") if x) if body else []
+    rows = [x for x in body.split(";") if x] if body else []
+    by_path = {r.split(" ")[1]: r for r in rows}
+    out = []
+    for r in rows:
+        f = r.split(" ")
+        if f[0] != "hardlink":
+            out.append(r)
+            continue
+        seen, cur = {f[1]}, r
+        while cur.split(" ")[0] == "hardlink":
+            t = cur.split(" ")[2]
+            if t in seen or t not in by_path:
+                return "fail"
+            seen.add(t)
+            cur = by_path[t]
+        g = cur.split(" ")
+        if g[0] == "dir":
+            return "fail"
+        out.append(" ".join([g[0], f[1]] + g[2:]))
+    return sorted(out)
 
 
 def tool_conv(ctx, harness, stats):
@@ -1286,7 +1470,7 @@ def tool_conv(ctx, harness, stats):
     tools = {t: ctx.build_tool(t) for t in ("tar2sqfs", "rdsquashfs", "sqfs2tar")}
     d = ctx.scratch / "conv"
     d.mkdir(exist_ok=True)
-    n = 120 if ctx.quick() else 2500
+    n = 160 if ctx.quick() else 3000
     cases = []
     for i in range(n):
         rb = rng.choice([b"", b"", b"r", b"r", b"a/b", b"x"])
@@ -1298,7 +1482,7 @@ def tool_conv(ctx, harness, stats):
     lines = ["t2s %s %d %d %d %d %d %o %s" % (tok(rb), sflag, kflag, dm, du, dg, dmode, tok(arc)) for arc, rb, sflag, kflag, dm, du, dg, dmode in cases]
     model = run_model(ctx, lines)
     cur = run_model(ctx, ["t2scur" + l[3:] for l in lines])
-    hist = {"model_ok": 0, "model_fail": 0, "root_becomes": 0, "no_keep_time": 0, "d25_seen": 0}
+    hist = {"model_ok": 0, "model_fail": 0, "root_becomes": 0, "no_keep_time": 0, "d25_seen": 0, "hard_link_nodes_in_model_trees": 0, "both_ok": 0}
 
     def one(i):
         return run_conv_case(ctx, tools, d, i, cases[i])
@@ -1315,6 +1499,8 @@ def tool_conv(ctx, harness, stats):
         hist["root_becomes"] += bool(rb); hist["no_keep_time"] += bool(kflag)
         want = norm_model(model[i])
         hist["model_ok" if want != "fail" else "model_fail"] += 1
+        hist["hard_link_nodes_in_model_trees"] += model[i].count("hardlink ") if want != "fail" else 0
+        hist["both_ok"] += want != "fail" and st == "ok" 
         if st in ("crash", "timeout"):
             ctx.violation("crash:tar2sqfs:" + vlib.sha(lines[i])[:10], "tar2sqfs %s: %s" % (st, obs), replay)
             continue
@@ -1338,6 +1524,10 @@ def tool_conv(ctx, harness, stats):
     stats["evaluations"] += 2 * len(lines) + len(cases)
     stats["conv_cases"] = len(cases)
     stats["conv_hist"] = hist
+    # a `fail` = `fail` agreement compares nothing but the status: the comparison must not consist of those
+    if hist["both_ok"] * 4 < len(cases) or hist["hard_link_nodes_in_model_trees"] == 0:
+        raise vlib.CheckFailure("conversion tie: only %d of %d cases converted by both sides, %d hard links in compared trees" % (
+            hist["both_ok"], len(cases), hist["hard_link_nodes_in_model_trees"]))
 
 
 # ------------------------------------------------------------------ xattr names with '=' / '%' through the real tools (fix-point of the xattr set)
@@ -1398,10 +1588,10 @@ def run_xkey_case(ctx, tools, d, tag, arc):
     cur, tars = arc, []
     for rnd in (1, 2):
         img = d / ("x%s_%d.sqfs" % (tag, rnd))
-        r = vlib.sh([str(tools["tar2sqfs"]), "-q", "-f", "-j", "1", str(img)], input=cur, env=env, timeout=600, text=False)
+        r = sh_t([str(tools["tar2sqfs"]), "-q", "-f", "-j", "1", str(img)], input=cur, env=env, timeout=600, text=False)
         if r.returncode != 0:
             return "tar2sqfs (round %d) exit %d: %s" % (rnd, r.returncode, r.stderr.decode("latin1")[-300:]), []
-        r = vlib.sh([str(tools["sqfs2tar"]), str(img)], env=env, timeout=600, text=False)
+        r = sh_t([str(tools["sqfs2tar"]), str(img)], env=env, timeout=600, text=False)
         try:
             img.unlink()
         except OSError:
@@ -1490,7 +1680,7 @@ def exclude_verdict(ctx, tools, d, tag, arc, pats):
     cmd = [str(tools["tar2sqfs"]), "-q", "-f", "-j", "1"]
     for p in pats:
         cmd += ["-E", p]
-    r = vlib.sh(cmd + [str(img)], input=arc, env=ctx.san_env(), timeout=600, text=False)
+    r = sh_t(cmd + [str(img)], input=arc, env=ctx.san_env(), timeout=600, text=False)
     if r.returncode != 0:
         return "tar2sqfs -E %s fails (exit %d): %s" % (pats, r.returncode, r.stderr.decode("latin1")[-200:]), len(members) - len(kept)
     obs, err = observe_image(ctx, tools, img)
@@ -1507,7 +1697,7 @@ def exclude_verdict(ctx, tools, d, tag, arc, pats):
 
 def noskip_verdict(ctx, tools, d, tag, arc, flags):
     img = d / ("n%s.sqfs" % tag)
-    r = vlib.sh([str(tools["tar2sqfs"]), "-q", "-f", "-j", "1"] + flags + [str(img)], input=arc, env=ctx.san_env(), timeout=600, text=False)
+    r = sh_t([str(tools["tar2sqfs"]), "-q", "-f", "-j", "1"] + flags + [str(img)], input=arc, env=ctx.san_env(), timeout=600, text=False)
     try:
         img.unlink()
     except OSError:
@@ -1519,17 +1709,17 @@ def noskip_verdict(ctx, tools, d, tag, arc, flags):
     return None
 
 
-def big_sparse_verdict(ctx, tools, d, tag, dialect, salt=0):
-    """a sparse member with data regions before, across and after the 4 GiB mark; None if the image holds exactly the expansion"""
+def big_sparse_verdict(ctx, tools, d, tag, dialect, salt=0, G=1 << 32):
+    """a sparse member with data regions before, across and after the mark G (4 GiB; 8 GiB = 8^11 for the old GNU dialect, from where
+    on GNU tar writes the map entries as base-256 numbers); None if the image holds exactly the expansion"""
     import random, subprocess
-    G = 1 << 32
     m = [(0, 512), (G - 512, 1024), (G + 4096 + 512 * (salt % 7), 512)]
     real = m[-1][0] + 512 + 100 + salt % 50
     data = bytes((i * 7 + salt) % 251 + 1 for i in range(2048))                  # no zero byte: holes and data are distinguishable
     arc = sparse_member(random.Random(salt), b"big", m, real, data, dialect) + b"\0" * 1024
     img = d / ("big%s.sqfs" % tag)
     env = ctx.san_env()
-    r = vlib.sh([str(tools["tar2sqfs"]), "-q", "-f", "-j", "1", str(img)], input=arc, env=env, timeout=1800, text=False)
+    r = sh_t([str(tools["tar2sqfs"]), "-q", "-f", "-j", "1", str(img)], input=arc, env=env, timeout=1800, text=False)
     if r.returncode != 0:
         return "tar2sqfs fails on a %s sparse member with map %s, size %d: exit %d %s" % (dialect, m, real, r.returncode, r.stderr.decode("latin1")[-200:])
     p = subprocess.Popen([str(tools["rdsquashfs"]), "-c", "big", str(img)], env=env, stdout=subprocess.PIPE, stderr=subprocess.DEVNULL)
@@ -1566,6 +1756,21 @@ def big_sparse_verdict(ctx, tools, d, tag, dialect, salt=0):
         return "%s sparse member with map %s: stored file has %d bytes, expected %d" % (dialect, m, pos, real)
     if bad:
         return "%s sparse member with map %s, size %d: %s" % (dialect, m, real, bad)
+    return None
+
+
+def cut_verdict(ctx, tools, d, tag, arc, what):
+    """tar2sqfs on an archive that ends inside a member must fail (non-zero exit status); None if it does"""
+    img = d / ("cut%s.sqfs" % tag)
+    r = sh_t([str(tools["tar2sqfs"]), "-q", "-f", "-j", "1", str(img)], input=arc, env=ctx.san_env(), timeout=1800, text=False)
+    try:
+        img.unlink()
+    except OSError:
+        pass
+    if r.returncode >= 90 or r.returncode < 0:
+        return "tar2sqfs aborts (exit %d) on an archive cut %s: %s" % (r.returncode, what, r.stderr.decode("latin1")[-300:])
+    if r.returncode == 0:
+        return "tar2sqfs exits 0 on an archive of %d bytes cut %s: the truncated archive is converted as if it were complete" % (len(arc), what)
     return None
 
 
@@ -1609,7 +1814,414 @@ def tool_option_probes(ctx, harness, stats):
         if msg:
             stats["disagreements_checked"] += 1
             report(ctx, "bigsparse", "sparse-4GiB:" + dialect, msg, {"optprobe": {"kind": "big-sparse", "dialect": dialect, "salt": salt}})
+    # … and the old GNU dialect around 8 GiB = 8^11, where GNU tar switches to base-256 numbers in the map (a real `tar --format=gnu -S`
+    # archive of such a file has exactly this header)
+    salt = rng.randrange(1 << 30)
+    msg = big_sparse_verdict(ctx, tools, d, "8g", "old", salt, G=1 << 33)
+    seen["big_sparse_cases"] += 1
+    stats["evaluations"] += 2
+    if msg:
+        stats["disagreements_checked"] += 1
+        if "wrong content" in msg:
+            stats["known_old256_seen"] = stats.get("known_old256_seen", 0) + 1
+            ctx.violation(KEY_OLD256, "tar2sqfs drops the regions of an old GNU sparse map from the first base-256 entry on (offsets of 8 GiB and more, as "
+                          "GNU tar writes them): exit 0, " + msg, {"optprobe": {"kind": "big-sparse", "dialect": "old", "salt": salt, "G": 1 << 33}})
+        else:
+            report(ctx, "bigsparse", "sparse-8GiB:old", msg, {"optprobe": {"kind": "big-sparse", "dialect": "old", "salt": salt, "G": 1 << 33}})
+    # (d) archives that end inside a member (no end marker): tar2sqfs must fail.  Since /repo 1ef571c this includes the padding
+    # of the last member / of an extension record and skipped data (`sqfs_istream_skip` reports the early end)
+    f5 = mk_header(name=b"f", size=5, mtime=1542905892, dialect="ustar") + pad512(b"hello")
+    dirh = mk_header(name=b"d/", mode=0o755, typeflag=b"5", mtime=1542905892, dialect="ustar")
+    longn = gen_name(rng, rng.choice([101, 300, 700]))
+    lrec = gnu_long(b"L", longn)
+    unk = mk_header(name=b"vol", size=700, typeflag=b"V", dialect="gnu") + pad512(b"v" * 700)       # unknown record: skipped by the iterator
+    cuts = [(f5[:len(f5) - rng.randint(1, 506)], "inside the padding of its last member"),
+            (dirh + lrec[:len(lrec) - rng.randint(1, (-(len(longn) + 1)) % 512)], "inside the padding of a GNU 'L' record"),
+            (dirh + unk[:512 + rng.randint(1, 1023)], "inside a record the iterator skips"),
+            (dirh + f5 + mk_header(name=b"g", size=1300, mtime=1, dialect="ustar") + b"x" * rng.randint(1, 1299), "inside the data of its last member")]
+    for ci, (arc, what) in enumerate(cuts):
+        msg = cut_verdict(ctx, tools, d, str(ci), arc, what)
+        seen["cut_archives"] = seen.get("cut_archives", 0) + 1
+        stats["evaluations"] += 1
+        stats["nontrivial"].add(("cut", vlib.sha(tok(arc))[:16]))
+        if msg:
+            stats["disagreements_checked"] += 1
+            report(ctx, "cut", "cut-archive:" + what.replace(" ", "-")[:40], msg, {"optprobe": {"kind": "cut", "archive_hex": tok(arc), "what": what}})
+    # (e) compressed input (`tar_open_stream` puts a decompressor in front of the iterator; since /repo d69b61b `it_next` reads the
+    # compressed stream to its end when the archive's end marker is reached): an intact .tar.gz converts, one whose gzip trailer
+    # (CRC32/ISIZE, which lies behind the end marker) is damaged or missing must fail.  The Lean model is over the *decompressed*
+    # byte stream, where this drain is invisible; decompressor errors are C15's subject — this is only the C04-side probe.
+    import gzip
+    plain = dirh + f5 + b"\0" * (1024 + 512 * rng.randint(600, 1200))     # (the trailer must lie behind the decompressor's first 256 KiB window)
+    gz = gzip.compress(plain, mtime=0)
+    flipped = gz[:-8] + bytes([gz[-8] ^ 0x55]) + gz[-7:]
+    for ci, (arc, what, must_fail) in enumerate([(gz, "gzip, intact", False), (flipped, "gzip, CRC32 of the trailer damaged", True),
+                                                 (gz[:-rng.randint(1, 8)], "gzip, trailer cut", True)]):
+        img = d / ("gz%d.sqfs" % ci)
+        r = sh_t([str(tools["tar2sqfs"]), "-q", "-f", "-j", "1", str(img)], input=arc, env=ctx.san_env(), timeout=1800, text=False)
+        try:
+            img.unlink()
+        except OSError:
+            pass
+        seen["compressed_input_cases"] = seen.get("compressed_input_cases", 0) + 1
+        stats["evaluations"] += 1
+        if r.returncode >= 90 or r.returncode < 0 or (r.returncode != 0) != must_fail:
+            stats["disagreements_checked"] += 1
+            report(ctx, "gzin", "compressed-input:" + what.replace(" ", "-").replace(",", ""), "tar2sqfs on a compressed archive (%s): exit %d, expected %s — %s" % (
+                what, r.returncode, "failure" if must_fail else "success", r.stderr.decode("latin1")[-200:]),
+                {"optprobe": {"kind": "gz", "archive_hex": tok(arc), "must_fail": must_fail, "what": what}})
     stats["option_probes"] = seen
+    if not (seen["exclude_cases"] and seen["no_skip_cases"] and seen.get("big_sparse_cases") and seen.get("cut_archives")):
+        raise vlib.CheckFailure("option probes did not all run: %s" % seen)
+
+
+# ------------------------------------------------------------------ the sqfs2tar model (premise of the fix-point theorems) vs the real sqfs2tar
+S2T_POOL = [b"d", b"dx", b"d.y", b"d0", b"a", b"b", b"e", b"f", b"zz", b"d ", b"D", b"\xc3\xa4", b"n" * 99, b"m" * 100, b"L" * 120, b"k" * 255]
+
+
+def gen_s2t_tree(rng, sock=False):
+    """a small tree described by the generator: {path: node}; node = dict(kind, mode, uid, gid, mtime, target, content, xattrs, maj, min,
+    link_to).  Names are chosen so that siblings extend each other's names (`d`, `dx`, `d.y`, `d0`: prefix tests of --subdir), paths
+    cross the 100-byte header field, and hard links stand before and after their targets in directory order."""
+    nodes, dirs = {}, [b""]
+    ids = [0, 1, 1000, 65534, (1 << 21) - 1, 1 << 21, (1 << 31), (1 << 32) - 1]
+    mts = [0, 1, 1542905892, (1 << 31) - 1, 1 << 31, (1 << 32) - 1]
+
+    def xat():
+        if sock or rng.random() < 0.6:
+            return []
+        out = []
+        for _ in range(rng.randint(1, 3)):
+            k = rng.choice([b"user.", b"trusted.", b"security."]) + rng.choice([b"a", b"b", b"x=y", b"50%", b"key", b"z" * 40]) + bytes(rng.choice(b"abc") for _ in range(rng.randint(0, 2)))
+            if k not in [a for a, _ in out]:
+                out.append((k, bytes(rng.choice([0, 10, 61, 0xff, rng.randrange(256)]) for _ in range(rng.choice([0, 1, 5, 80])))))
+        return out
+
+    for _ in range(rng.randint(2, 16)):
+        parent = rng.choice(dirs)
+        name = rng.choice(S2T_POOL[:9] if sock else S2T_POOL)          # (pack files: no trailing blank, ASCII)
+        path = parent + b"/" + name if parent else name
+        if path in nodes or len(path) > 600:
+            continue
+        kind = rng.choice(["dir", "dir", "dir", "file", "file", "file", "slink", "chr", "blk", "fifo"] + (["sock", "sock"] if sock else []))
+        perm = rng.choice([0o644, 0o755, 0o700, 0o7777, 0, 0o4711])
+        n = dict(kind=kind, perm=perm, uid=rng.choice(ids), gid=rng.choice(ids), mtime=0 if sock else rng.choice(mts),
+                 target=None, content=b"", xattrs=xat(), maj=0, min=0, link_to=None)
+        if kind == "dir":
+            dirs.append(path)
+        elif kind == "file":
+            n["content"] = bytes(rng.randrange(256) for _ in range(rng.choice([0, 1, 5, 511, 512, 513, 1500])))
+        elif kind == "slink":
+            n["perm"] = 0o777
+            n["target"] = rng.choice([b"x", b"../up", b"/abs/path", b"t" * 99, b"t" * 100, b"u" * 101, b"a/b"])
+        elif kind in ("chr", "blk"):
+            n["maj"], n["min"] = rng.choice([0, 1, 8, 255, 4095]), rng.choice([0, 1, 255, 256, (1 << 20) - 1])
+        nodes[path] = n
+    prim = [p for p, n in nodes.items() if n["kind"] not in ("dir",)]
+    for _ in range(rng.choice([0, 0, 1, 2, 3]) if prim else 0):
+        tgt = rng.choice(prim)
+        parent = rng.choice(dirs)
+        name = rng.choice([b"0hl", b"hl", b"zzhl", b"d", b"h" * 110])             # sorts before / after most targets
+        path = parent + b"/" + name if parent else name
+        if path in nodes:
+            continue
+        nodes[path] = dict(kind="hard", link_to=tgt)
+    return nodes
+
+
+def s2t_listing(nodes, no_xattr=False):
+    """the recursive listing of the image: pre-order, children by name (bytes), every name of an inode with that inode's attributes and
+    the same inode number -> list of dicts for the `s2t` op"""
+    kids = {}
+    for p in nodes:
+        kids.setdefault(p.rsplit(b"/", 1)[0] if b"/" in p else b"", []).append(p)
+    ino, out = {}, []
+    for i, p in enumerate(sorted(nodes)):
+        if nodes[p]["kind"] != "hard":
+            ino[p] = i + 1
+
+    def rec(d):
+        for c in sorted(kids.get(d, []), key=lambda x: x.rsplit(b"/", 1)[-1]):
+            n = nodes[c]
+            src = nodes[n["link_to"]] if n["kind"] == "hard" else n
+            fm = {"dir": S_IFDIR, "file": S_IFREG, "slink": S_IFLNK, "chr": S_IFCHR, "blk": S_IFBLK, "fifo": S_IFIFO, "sock": S_IFSOCK}[src["kind"]]
+            out.append(dict(name=c, mode=fm | src["perm"], uid=src["uid"], gid=src["gid"], mtime=src["mtime"],
+                            inode=ino[n["link_to"]] if n["kind"] == "hard" else ino[c], target=src["target"], content=src["content"],
+                            xattrs=[] if no_xattr else src["xattrs"], maj=src["maj"], min=src["min"]))
+            if n["kind"] == "dir":
+                rec(c)
+    rec(b"")
+    return out
+
+
+def s2t_archive(rng, nodes, root):
+    """a tar archive tar2sqfs turns into the image of `nodes`: directories first (parents before children), then the rest in random
+    order, hard link records anywhere among them; xattrs as SCHILY records in *reverse* stored order (the reader prepends)"""
+    def member(path, n):
+        pre = b""
+        if n["kind"] != "hard" and n["xattrs"]:
+            pre = pax_member([pax_record(b"SCHILY.xattr." + gnu_escape_key(k), v) for k, v in reversed(n["xattrs"])])
+        kw = dict(dialect="gnu")
+        if n["kind"] == "hard":
+            t = n["link_to"]
+            if len(t) > 99:
+                pre += gnu_long(b"K", t)
+            kw.update(typeflag=b"1", linkname=t[:100], mode=0o644)
+        else:
+            kw.update(mode=n["perm"], uid=n["uid"], gid=n["gid"], mtime=n["mtime"])
+            if n["kind"] == "dir":
+                kw.update(typeflag=b"5")
+            elif n["kind"] == "file":
+                kw.update(typeflag=b"0", size=len(n["content"]))
+            elif n["kind"] == "slink":
+                if len(n["target"]) > 99:
+                    pre += gnu_long(b"K", n["target"])
+                kw.update(typeflag=b"2", linkname=n["target"][:100])
+            elif n["kind"] in ("chr", "blk"):
+                kw.update(typeflag=b"3" if n["kind"] == "chr" else b"4", maj=n["maj"], minr=n["min"])
+            else:
+                kw.update(typeflag=b"6")
+        name = path + (b"/" if n["kind"] == "dir" else b"")
+        if len(name) > 99:
+            pre += gnu_long(b"L", name)
+        body = pad512(n["content"]) if n["kind"] == "file" else b""
+        return pre + mk_header(name=name[:100], **kw) + body
+    out = b""
+    if root is not None:
+        out += member(b".", dict(kind="dir", perm=root["perm"], uid=root["uid"], gid=root["gid"], mtime=root["mtime"], xattrs=root["xattrs"]))
+    ds = sorted((p for p in nodes if nodes[p]["kind"] == "dir"), key=lambda p: (p.count(b"/"), p))
+    rest = [p for p in nodes if nodes[p]["kind"] != "dir"]
+    rng.shuffle(rest)
+    for p in ds + rest:
+        out += member(p, nodes[p])
+    # stored order of an inode's xattrs: the xattr writer sorts the pairs of one inode by the index of the key in its string table,
+    # i.e. by the first appearance of the key string while tar2sqfs works through the archive (xattr_writer_record.c:123)
+    rank = {}
+    for n in ([root] if root is not None else []) + [nodes[p] for p in ds + rest]:
+        for k, _ in n.get("xattrs") or []:
+            rank.setdefault(k, len(rank))
+    for n in ([root] if root is not None else []) + list(nodes.values()):
+        if n.get("xattrs"):
+            n["xattrs"] = sorted(n["xattrs"], key=lambda kv: rank[kv[0]])
+    return out + b"\0" * 1024
+
+
+def s2t_pack_file(nodes, d):
+    """gensquashfs pack file for a tree with sockets (tar cannot carry them)"""
+    lines = []
+    for p in sorted(nodes, key=lambda p: (nodes[p]["kind"] == "hard", p.count(b"/"), p)):
+        n = nodes[p]
+        q = p.decode("latin1").replace("\\", "\\\\").replace('"', '\\"')
+        q = '"%s"' % q
+        if n["kind"] == "hard":
+            lines.append("link %s 0 0 0 %s" % (q, n["link_to"].decode("latin1")))
+            continue
+        base = "%s 0%o %d %d" % (q, n["perm"], n["uid"], n["gid"])
+        if n["kind"] == "dir":
+            lines.append("dir " + base)
+        elif n["kind"] == "file":
+            f = d / ("c%d.bin" % len(lines))
+            f.write_bytes(n["content"])
+            lines.append("file %s %s" % (base, f))
+        elif n["kind"] == "slink":
+            lines.append("slink %s %s" % (base, n["target"].decode("latin1")))
+        elif n["kind"] in ("chr", "blk"):
+            lines.append("nod %s %s %d %d" % (base, "c" if n["kind"] == "chr" else "b", n["maj"], n["min"]))
+        elif n["kind"] == "fifo":
+            lines.append("pipe " + base)
+        else:
+            lines.append("sock " + base)
+    return "\n".join(lines) + "\n"
+
+
+def s2t_line(op, so, root, listing):
+    def xs(l):
+        return ",".join("%s:%s" % (tok(k), tok(v)) for k, v in l) if l else "-"
+    ents = ["%s;%o;%d;%d;%d;%d;%s;%s;%s;%d;%d" % (tok(e["name"]), e["mode"], e["uid"], e["gid"], e["mtime"], e["inode"],
+                                                 "null" if e["target"] is None else tok(e["target"]), tok(e["content"]), xs(e["xattrs"]), e["maj"], e["min"])
+            for e in listing]
+    return "%s %s %d %s %d %d %s %s" % (op, ",".join(tok(x) for x in so["subdirs"]) if so["subdirs"] else "-", so["keep"] or len(so["subdirs"]) > 1,
+                                        "null" if so["rb"] is None else tok(so["rb"]), so["L"], so["s"],
+                                        "%o;%d;%d;%d;%s" % (S_IFDIR | root["perm"], root["uid"], root["gid"], root["mtime"], xs([] if so["X"] else root["xattrs"])),
+                                        " ".join(ents))
+
+
+def s2t_spec_names(so, listing):
+    """independent statement of which entries sqfs2tar emits and under which names (not of the bytes): (names, hard link targets)"""
+    sub, keep = so["subdirs"], so["keep"] or len(so["subdirs"]) > 1
+    out = []
+    for e in listing:
+        nm = e["name"]
+        isdir = e["mode"] & S_IFMT == S_IFDIR
+        if sub:
+            below = [p for p in sub if nm == p or nm.startswith(p + b"/")]
+            above = [p for p in sub if p.startswith(nm + b"/")]
+            if not below and not above:
+                continue
+            if not keep:
+                if not nm.startswith(sub[0] + b"/"):
+                    continue
+                nm = nm[len(sub[0]) + 1:]
+        if so["rb"] is not None:
+            nm = so["rb"] + b"/" + nm
+        out.append((nm, isdir, e["inode"]))
+    if so["rb"] is not None:
+        out.insert(0, (so["rb"], True, 0))
+    names, first = [], {}
+    for nm, isdir, ino in out:
+        if not isdir and not so["L"] and ino in first:
+            names.append(tok(nm) + ">" + tok(first[ino]))
+        else:
+            names.append(tok(nm))
+            if not isdir:
+                first.setdefault(ino, nm)
+    return names
+
+
+def unit_sqfs2tar(ctx, harness, stats):
+    """`sqfs2tarFull` (= `sqfs2tarLoop`/`entryBytes`/`wentryOf`, the functions the fixpoint_* theorems are about, behind the models of
+    bin/sqfs2tar/src/iterator.c and lib/sqfs/src/io/dir_hl.c) against the real sqfs2tar, byte for byte, on generated images x options"""
+    rng = ctx.rng
+    tools = {t: ctx.build_tool(t) for t in ("tar2sqfs", "sqfs2tar", "gensquashfs")}
+    d = ctx.scratch / "s2t"
+    d.mkdir(exist_ok=True)
+    env = ctx.san_env({"SOURCE_DATE_EPOCH": "0"})
+    nimg = 45 if ctx.quick() else 900
+    cases, hist = [], {"images": 0, "socket_images": 0, "runs": 0, "opts": {}, "hard_link_records": 0, "model_fail": 0, "entries": 0, "emitted": 0,
+                       "subdir_with_name_extending_sibling": 0}
+    for ii in range(nimg):
+        sock = ii % 6 == 5
+        nodes = gen_s2t_tree(rng, sock)
+        if not nodes:
+            continue
+        root = None
+        if not sock and rng.random() < 0.5:
+            root = dict(perm=rng.choice([0o755, 0o700, 0o1777]), uid=rng.choice([0, 1000]), gid=rng.choice([0, 7]), mtime=rng.choice([0, 1542905892]),
+                        xattrs=[(b"user.root", b"r")] if rng.random() < 0.5 else [])
+        img = d / ("i%d.sqfs" % ii)
+        if sock:
+            wd = d / ("p%d" % ii)
+            wd.mkdir(exist_ok=True)
+            pf = wd / "pack.txt"
+            pf.write_bytes(s2t_pack_file(nodes, wd).encode("latin1"))
+            r = sh_t([str(tools["gensquashfs"]), "-q", "-f", "-F", str(pf), str(img)], env=env, timeout=1800, text=False)
+            how = {"pack_file": pf.read_text(errors="replace")}
+        else:
+            arc = s2t_archive(rng, nodes, root)
+            r = sh_t([str(tools["tar2sqfs"]), "-q", "-f", "-j", "1", str(img)], input=arc, env=env, timeout=1800, text=False)
+            how = {"archive_hex": tok(arc)}
+        if r.returncode != 0:
+            stats["disagreements_checked"] += 1
+            report(ctx, "s2t-build", "s2t-build:" + vlib.sha(repr(sorted(nodes)))[:10], "the image for the sqfs2tar tie cannot be built (exit %d): %s" % (
+                r.returncode, r.stderr.decode("latin1")[-300:]), {"s2t": dict(how, nodes=repr(nodes))}, found_input=False)
+            continue
+        hist["images"] += 1; hist["socket_images"] += sock
+        rootd = root or dict(perm=0o755, uid=0, gid=0, mtime=0, xattrs=[])
+        dirs = [p for p, n in nodes.items() if n["kind"] == "dir"]
+        optsets = [dict(subdirs=[], keep=False, rb=None, L=False, X=False, s=False)]
+        for _ in range(2 if ctx.quick() else 4):
+            so = dict(subdirs=[], keep=False, rb=None, L=rng.random() < 0.25, X=rng.random() < 0.2, s=rng.random() < (0.5 if sock else 0.1))
+            if dirs and rng.random() < 0.7:
+                so["subdirs"] = rng.sample(dirs, min(len(dirs), rng.choice([1, 1, 1, 2, 3])))
+                so["keep"] = rng.random() < 0.4
+            if rng.random() < 0.4:
+                so["rb"] = rng.choice([b"r", b"a/b", b".", b"d", b"x" * 101])
+            optsets.append(so)
+        for so in optsets:
+            listing = s2t_listing(nodes, so["X"])
+            argv = []
+            if so["rb"] is not None:
+                argv += ["-r", so["rb"].decode()]
+            for sd in so["subdirs"]:
+                argv += ["-d", sd.decode("latin1")]
+            argv += (["--keep-as-dir"] if so["keep"] else []) + (["--no-xattr"] if so["X"] else []) + (["--no-hard-links"] if so["L"] else []) + \
+                (["--no-skip"] if so["s"] else [])
+            argvb = [a.encode("latin1") for a in argv]
+            r = sh_t([str(tools["sqfs2tar"]).encode()] + argvb + [str(img).encode()], env=env, timeout=1800, text=False)
+            if any(any(q != p and q.rsplit(b"/", 1)[0:-1] == p.rsplit(b"/", 1)[0:-1] and q.startswith(p) for q in nodes) for p in so["subdirs"]):
+                hist["subdir_with_name_extending_sibling"] += 1
+            cases.append((ii, so, argv, rootd, listing, r, how))
+        try:
+            img.unlink()
+        except OSError:
+            pass
+    if not cases:
+        raise vlib.CheckFailure("sqfs2tar tie: no image could be built")
+    lines = [s2t_line("s2t", so, rootd, listing) for _, so, _, rootd, listing, _, _ in cases]
+    model = run_model(ctx, lines)
+    ents = run_model(ctx, [s2t_line("s2tents", so, rootd, listing) for _, so, _, rootd, listing, _, _ in cases])
+    for (ii, so, argv, rootd, listing, r, how), l, m, en in zip(cases, lines, model, ents):
+        hist["runs"] += 1
+        for k in ("keep", "L", "X", "s"):
+            hist["opts"][k] = hist["opts"].get(k, 0) + bool(so[k])
+        hist["opts"]["subdir%d" % min(len(so["subdirs"]), 2)] = hist["opts"].get("subdir%d" % min(len(so["subdirs"]), 2), 0) + 1
+        hist["opts"]["rb"] = hist["opts"].get("rb", 0) + (so["rb"] is not None)
+        hist["entries"] += len(listing)
+        stats["nontrivial"].add(("s2t", vlib.sha(l)[:16]))
+        replay = {"unit_model": [l], "s2t": dict(how, argv=argv)}
+        if r.returncode >= 90 or r.returncode < 0:
+            ctx.violation("crash:sqfs2tar:" + vlib.sha(l)[:10], "sqfs2tar %s aborts (exit %d): %s" % (" ".join(argv), r.returncode, r.stderr.decode("latin1")[-400:]), replay)
+            continue
+        got = "fail" if r.returncode != 0 else "ok " + tok(r.stdout)
+        # independent statement of the emitted names / hard link targets (Python) against the model's entry list
+        want_names = s2t_spec_names(so, listing)
+        got_names = [] if en == "" else en.split(" ")
+        hist["emitted"] += len(got_names)
+        hist["hard_link_records"] += sum(">" in x for x in got_names)
+        hist["model_fail"] += m == "fail"
+        if got_names != want_names:
+            stats["disagreements_checked"] += 1
+            report(ctx, "s2t-model", "s2t-model:" + vlib.sha(l)[:10], "the model's entry list for sqfs2tar %s differs from its specification: model %s, specification %s" % (
+                " ".join(argv), got_names[:6], want_names[:6]), replay, found_input=False)
+        if got == m:
+            continue
+        stats["disagreements_checked"] += 1
+        # which property does the real output violate?  walk its members with the independent reader used for the xattr probe
+        what = "sqfs2tar %s: the real tool and the model differ (%s vs %s)" % (" ".join(argv), got[:60], m[:60])
+        found = False
+        if got != "fail" and m != "fail":
+            a, b = untok(got[3:]), untok(m[3:])
+            k = next((i for i in range(min(len(a), len(b))) if a[i] != b[i]), min(len(a), len(b)))
+            names_real = walk_member_names(a)
+            found = names_real is None or names_real != [untok(x.split(">")[0]) for x in want_names if True]
+            what += ": %d vs %d bytes, first difference at offset %d (record %d, byte %d); member names of the real archive %s the specification" % (
+                len(a), len(b), k, k // 512, k % 512, "differ from" if found else "agree with")
+        else:
+            found = True
+            what += ": exit status %d, the model says %s" % (r.returncode, "failure (--no-skip and a socket)" if m == "fail" else "success")
+        report(ctx, "s2t", "s2t:" + vlib.sha(l)[:10], what, replay, found_input=found)
+    stats["evaluations"] += 3 * len(cases)
+    stats["sqfs2tar_tie"] = hist
+    if hist["hard_link_records"] == 0 or hist["opts"].get("subdir1", 0) == 0 or hist["emitted"] == 0:
+        raise vlib.CheckFailure("sqfs2tar tie generated no hard link record / no --subdir run: %s" % hist)
+
+
+def walk_member_names(buf):
+    """member names of a tar archive written by sqfs2tar (GNU 'L' records honoured), own walker; None when not well-formed"""
+    names, pos, longname = [], 0, None
+    while pos + 512 <= len(buf):
+        h = buf[pos:pos + 512]
+        pos += 512
+        if h == b"\0" * 512:
+            continue
+        try:
+            f = h[124:136]
+            size = int.from_bytes(f[1:], "big") if f[0] & 0x80 else int(f.rstrip(b" \0") or b"0", 8)
+        except ValueError:
+            return None
+        tf = h[156:157]
+        payload = buf[pos:pos + size]
+        if tf in (b"L", b"K", b"x", b"0", b"\0"):
+            pos += (size + 511) // 512 * 512
+        if tf == b"L":
+            longname = payload.split(b"\0")[0]
+        elif tf in (b"K", b"x"):
+            pass
+        else:
+            nm = longname if longname is not None else h[:100].split(b"\0")[0]
+            names.append(nm[:-1] if nm.endswith(b"/") and len(nm) > 1 else nm)
+            longname = None
+    return names
 
 
 # ------------------------------------------------------------------ entry points
@@ -1625,7 +2237,7 @@ def run(ctx):
     stats = {"evaluations": 0, "disagreements_checked": 0, "nontrivial": set(), "samples": []}
     t0 = time.time()
     harness = build_harness(ctx)
-    for fn in (unit_numbers, unit_checksum, unit_headers, unit_reader, unit_canon_inplace, tool_conv, tool_xattr_keys, tool_option_probes):
+    for fn in (unit_numbers, unit_checksum, unit_headers, unit_reader, unit_canon_inplace, unit_sqfs2tar, tool_conv, tool_xattr_keys, tool_option_probes):
         t1 = time.time()
         fn(ctx, harness, stats)
         ctx.log("%s: %.1fs" % (fn.__name__, time.time() - t1))
@@ -1665,7 +2277,8 @@ def run(ctx):
 
 TRUSTED = [
     "modelled, not verified directly: the C text of lib/tar/src/{number,checksum,write_header,read_header,pax_header,read_sparse_map_old,"
-    "read_sparse_map_new,iterator,record_to_memory,padd_file}.c and bin/tar2sqfs/src/process_tarball.c; C strings are their bytes before the NUL; "
+    "read_sparse_map_new,iterator,record_to_memory,padd_file}.c, bin/tar2sqfs/src/process_tarball.c, bin/sqfs2tar/src/{sqfs2tar,iterator}.c, "
+    "lib/sqfs/src/io/dir_hl.c, sqfs_istream_skip of lib/sqfs/src/io/stream_api.c; C strings are their bytes before the NUL; "
     "sqfs_u64 arithmetic is Nat arithmetic with explicit `% 2^64` where the C code can wrap",
     "harness/h_c04.c (includes write_header.c and read_header.c textually to reach the static helpers), tools/checks/c04.py, tools/checks/c04_tools.py",
     "tool level: GNU tar 1.34 and Python tarfile as independent readers; rdsquashfs (built from the same tree) as image observer",
@@ -1692,6 +2305,31 @@ def replay(ctx, path):
         print("model   :", norm_conv_model(model[0]))
         print("model of the unrepaired code:", norm_conv_model(cur[0]))
         return 0 if got == norm_conv_model(model[0]) else 1
+    if "s2t" in rp and "unit_model" in rp:
+        ctx.lean_build(["sqfsmodel"])
+        tools = {t: ctx.build_tool(t) for t in ("tar2sqfs", "sqfs2tar", "gensquashfs")}
+        env = ctx.san_env({"SOURCE_DATE_EPOCH": "0"})
+        img = ctx.scratch / "replay.sqfs"
+        c = rp["s2t"]
+        if "archive_hex" in c:
+            r = sh_t([str(tools["tar2sqfs"]), "-q", "-f", "-j", "1", str(img)], input=untok(c["archive_hex"]), env=env, timeout=1800, text=False)
+        else:
+            print("image came from a gensquashfs pack file with content files in a scratch directory; pack file:\n" + c.get("pack_file", ""))
+            print("re-run the tier with the same VERIF_SEED to regenerate it")
+            return 1
+        if r.returncode != 0:
+            print("tar2sqfs fails on the recorded archive (exit %d): %s" % (r.returncode, r.stderr.decode("latin1")[-300:]))
+            return 1
+        r = sh_t([str(tools["sqfs2tar"]).encode()] + [a.encode("latin1") for a in c["argv"]] + [str(img).encode()], env=env, timeout=1800, text=False)
+        model = run_model(ctx, rp["unit_model"])[0]
+        got = "fail" if r.returncode != 0 else "ok " + tok(r.stdout)
+        print("sqfs2tar %s: exit %d, %d bytes; model: %s" % (" ".join(c["argv"]), r.returncode, len(r.stdout), "fail" if model == "fail" else "%d bytes" % (len(model) // 2 - 1)))
+        if got != model and got != "fail" and model != "fail":
+            a, b = r.stdout, untok(model[3:])
+            k = next((i for i in range(min(len(a), len(b))) if a[i] != b[i]), min(len(a), len(b)))
+            print("first difference at offset %d (record %d): real %r / model %r" % (k, k // 512, a[k - k % 512:k - k % 512 + 120].rstrip(b"\0"), b[k - k % 512:k - k % 512 + 120].rstrip(b"\0")))
+            print("member names (real):", walk_member_names(a))
+        return 0 if got == model else 1
     if "xkey" in rp:
         tools = {t: ctx.build_tool(t) for t in ("tar2sqfs", "sqfs2tar")}
         pairs = [(untok(k), untok(v)) for k, v in rp["xkey"]["pairs"]]
@@ -1706,7 +2344,13 @@ def replay(ctx, path):
         tools = {t: ctx.build_tool(t) for t in ("tar2sqfs", "rdsquashfs", "sqfs2tar")}
         o = rp["optprobe"]
         if o["kind"] == "big-sparse":
-            msg = big_sparse_verdict(ctx, tools, ctx.scratch, "replay", o["dialect"], o.get("salt", 0))
+            msg = big_sparse_verdict(ctx, tools, ctx.scratch, "replay", o["dialect"], o.get("salt", 0), o.get("G", 1 << 32))
+        elif o["kind"] == "gz":
+            img = ctx.scratch / "gzreplay.sqfs"
+            r = sh_t([str(tools["tar2sqfs"]), "-q", "-f", "-j", "1", str(img)], input=untok(o["archive_hex"]), env=ctx.san_env(), timeout=1800, text=False)
+            msg = None if (r.returncode != 0) == o["must_fail"] and 0 <= r.returncode < 90 else "tar2sqfs on %s: exit %d" % (o["what"], r.returncode)
+        elif o["kind"] == "cut":
+            msg = cut_verdict(ctx, tools, ctx.scratch, "replay", untok(o["archive_hex"]), o["what"])
         elif o["kind"] == "exclude":
             msg, _ = exclude_verdict(ctx, tools, ctx.scratch, "replay", untok(o["archive_hex"]), o["patterns"])
         else:
